@@ -327,6 +327,19 @@ example : ((run (init 1 1 1) [.add p0, .qAddr a1 none, .add p0']).getByAddr a1 n
 example : (step (run (init 2 2 2) ([.add p0, .qKey 0] ++ [.rmPeer p0] ++ [.qAddr a1 none])) (.add p0')).getByKey 0
     = some p0' := by decide
 
+/-- hypotheses of `removed_by_address_is_gone` / `removed_by_address_can_be_added_again` are satisfiable (a verified peer
+    uses the address), the removal really removes, and the re-add really succeeds -/
+example : p0 ∈ (run (init 2 2 2) [.add p0, .qKey 0]).g.verified ∧ a1 ∈ p0.addrList ∧
+    (run (init 2 2 2) ([.add p0, .qKey 0] ++ [.rmAddr a1] ++ [.qAddr a1 none])).getByKey 0 = none ∧
+    (step (run (init 2 2 2) ([.add p0, .qKey 0] ++ [.rmAddr a1] ++ [.qAddr a1 none])) (.add p0')).getByKey 0 = some p0' := by
+  decide
+
+/-- MIRRORED QUIRK, judged in design.d (not a clause the theorems establish either way): an identity that was never
+    verified (here: its mid is blacklisted) still lends its advertised services to the addresses it introduced, so
+    `get_walkable_addresses(service)` can be non-empty while no peer is verified at all.  `AnsWalk` follows the code here. -/
+example : let s := run (init 2 2 2) [.blMid 0, .svcs p0 [7], .disc p0 a3 none false]
+    s.g.verified = [] ∧ (s.walkable (some 7) false).1 = [a3] := by decide
+
 /-- hypotheses of `blacklisted_never_verified` hold in a reachable state; other peers still get verified there -/
 example : let s := run (init 2 2 2) [.blMid 0, .add p1]
     0 ∈ s.g.blMid ∧ 0 ∉ s.g.keys ∧ 1 ∈ s.g.keys := by decide
